@@ -45,11 +45,13 @@ let () =
        (* pconf= (SetProgmemConfigurationInformation with strings of at most 70 characters) leaves the node with the same strings and payload *)
        let rcfg = match (try Some (List.assoc "conf" kv) with Not_found -> (try Some (List.assoc "pconf" kv) with Not_found -> None)) with
          | Some c -> (match String.split_on_char ',' c with
-             | [a; b; m] -> set_configuration_information rcfg (unhex m) (unhex a) (unhex b)
+             (* ~ = null pointer: an omitted string is sent as an empty one; with all three omitted there is no configuration information at all *)
+             | ["~"; "~"; "~"] -> { rcfg with c_confinfo = []; c_inst1 = []; c_inst2 = []; c_manuf = [] }
+             | [a; b; m] -> let u s = if s = "~" then [] else unhex s in set_configuration_information rcfg (u m) (u a) (u b)
              | _ -> rcfg)
          | None -> rcfg in
        (* prod=<hex model id>,<hex software code>,<hex model version>,<hex serial code>: SetProductInformation for device 0 *)
-       let rcfg = match (try Some (List.assoc "prod" kv) with Not_found -> None) with
+       let rcfg = match (try Some (List.assoc "prod" kv) with Not_found -> (try Some (List.assoc "pprod" kv) with Not_found -> None)) with     (* pprod = the pointer variant: same content *)
          | Some c -> (match String.split_on_char ',' c with
              | [m; s; v; ser] -> set_product_information rcfg (unhex ser) (zi 666) (unhex m) (unhex s) (unhex v) (zi 1) (zi 2101) (zi 0)
              | _ -> rcfg)
